@@ -886,7 +886,7 @@ Proof.
   (* an operand followed by a token that is not a colon *)
   assert (Hwrap: forall b, size b <= n -> wf b -> forall y', ncolon y' -> good2 (wrap b (xt b) ++ y')).
   { intros b Hb Hwb y' Hy'. unfold wrap. destruct (simple b); [apply IH; assumption|apply good2_parkv]. }
-  destruct e as [a|k v ty|o l r|o x|o x|o x|x|b i|b ty fld|b args|c t f|o l r|es]; cbn [size] in Hn; cbn [wf] in Hw; cbn [RoundTripX.xt].
+  destruct e as [a|k v ty|o l r|o x|o x|o x|x|b i|b ty fld|b args|c t f|o l r|es|ty x|ty]; cbn [size] in Hn; cbn [wf] in Hw; cbn [RoundTripX.xt].
   - destruct Hy as [k2 [v2 [r2 [-> Hk2]]]]. exists K_ID, a, ((k2, v2) :: r2). split; [reflexivity|]. split; [reflexivity|].
     intros _. exists k2, v2, r2. split; [reflexivity|exact Hk2].
   - destruct (const_start k (const_ok_kind _ _ _ Hw)) as [H1 H2]. apply good2_kw; assumption.
@@ -912,6 +912,8 @@ Proof.
     destruct Hes as (Hw1 & _). unfold vx at 1. destruct (iscomma e1); [apply good2_parkv|].
     apply IH; [|exact Hw1|apply ncolon_cons; reflexivity].
     change (list_sum (map size (e1 :: e2 :: rest))) with (size e1 + list_sum (map size (e2 :: rest))) in Hn. lia.
+  - apply good2_kw; reflexivity.
+  - apply good2_kw; reflexivity.
 Qed.
 
 Lemma xt_sestart : forall e, wf e -> exists k v rest, xt e = (k, v) :: rest /\ sestart k = true.
